@@ -66,6 +66,7 @@ CHECKS = {
         "assumptions": ["the sequence of agent operations of a scenario is the same in the dry run and in the fault runs (keys differ, shape does not)"],
         "subchecks": [
             E("TestC04AllScenarios"),
+            E("TestC04NilParams"),
             R("TestC04Faults", 15, 100, qs=2),
             R("TestC04RealSigner", 40, 300, qs=2, ts=8),
         ],
@@ -178,6 +179,7 @@ CHECKS = {
             E("TestC11ReadYourWrites", quick={"shards": 1, "timeout": 600}, thorough={"shards": 1, "timeout": 1200}),
             E("TestC11ParkedWaits", quick={"shards": 1, "timeout": 600}, thorough={"shards": 1, "timeout": 900}),
             E("TestC11RefusedHeldSigner", quick={"shards": 1, "timeout": 600}, thorough={"shards": 1, "timeout": 900}),
+            E("TestC11RefusedLock", quick={"shards": 1, "timeout": 600}, thorough={"shards": 1, "timeout": 900}),
             R("TestC11Concurrent", 40, 250, qs=2, quick_extra={"timeout": 600}, thorough_extra={"timeout": 1500}),
             R("TestC11Sequential", 150, 1500, qs=2, ts=8, quick_extra={"timeout": 600}, thorough_extra={"timeout": 1500}),
         ],
@@ -196,6 +198,7 @@ CHECKS = {
             R("TestC12Stream", 5000, 50000),
             R("TestC12StreamReal", 300, 2000, ts=8),
             R("TestC12Sessions", 400, 4000, ts=8),
+            R("TestC12OwnerClose", 300, 3000, ts=8),
             R("TestC12LocalSlots", 60, 600, ts=4),
             E("TestC12SlowHandler"),
             R("TestC12WaitFirstUse", 15, 100, qs=8, ts=16),
